@@ -234,6 +234,45 @@ def run_forked(scheme, acc, ctx, rounds):
             return
 
 
+def run_twins(scheme, acc, ctx, rounds):
+    """Two fresh interpreters that agree on the wall-clock second, process id, hash seed and environment (vlib.twin)
+    build the index of the same (key, database)."""
+    from vlib import twin
+    short = gen.SHORT[scheme]
+    L = sse.loader(scheme)
+    rng = ctx.rng
+    done = tries = 0
+    while done < rounds and tries < rounds * 4 and not ctx.out_of_time():
+        tries += 1
+        cid, cfg = gen.pick_config(scheme, rng, tries + 3)
+        if "param_identifier_size" in cfg:
+            cfg["param_identifier_size"] = max(8, cfg["param_identifier_size"])
+        try:
+            db, info = gen.make_db(rng, scheme, cfg, rng.choice(["zipf", "many-singletons", "shared-id"]), 12)
+            sch = L.SSEScheme(cfg)
+            key = sch.KeyGen()
+            kb = key.serialize()
+        except Exception:
+            continue
+        a, b = twin.run_pair({"kind": "c04", "scheme": scheme, "cfg": cfg, "db": db, "key_bytes": kb}, ctx.scratch)
+        if a is None or b is None:
+            acc.count("twin_failed")
+            continue
+        done += 1
+        acc.count("twin_build_pairs")
+        acc.count("cases")
+        acc.count("cases." + short)
+        acc.add("distinct", sse.case_fp(scheme, "twin-" + cid, db))
+        acc.count("entries_compared_across_twins", len(a) + len(b))
+        common = set(a) & set(b)
+        if common:
+            acc.violation(f"{short}:ciphertexts-repeat-across-twin-interpreters",
+                          f"{scheme}: {len(common)} of {len(a)} ciphertext entries coincide between indexes built from the "
+                          f"same key and database in two fresh interpreters started in the same second with the same "
+                          f"process id and hash seed", sse.case_desc(scheme, cid, cfg, "twins", db))
+            return
+
+
 def run_shard(spec, acc, ctx):
     scheme = spec["scheme"]
     rng = ctx.rng
@@ -241,6 +280,8 @@ def run_shard(spec, acc, ctx):
     first = True
     if scheme != "CGKO06.SSE2" and spec["index"] == 0:
         run_forked(scheme, acc, ctx, 3 if ctx.tier == "quick" else 25)
+    if scheme != "CGKO06.SSE2" and spec["index"] == 1:
+        run_twins(scheme, acc, ctx, 2 if ctx.tier == "quick" else 12)
     while not ctx.out_of_time():
         cid, cfg = gen.pick_config(scheme, rng, i)
         i += spec["of"]
@@ -281,6 +322,16 @@ def run_shard(spec, acc, ctx):
 
 
 def replay(case, acc, ctx):
+    if case.get("db_class") == "twins":
+        from vlib import twin
+        sch = sse.loader(case["scheme"]).SSEScheme(case["cfg"])
+        kb = sch.KeyGen().serialize()
+        a, b = twin.run_pair({"kind": "c04", "scheme": case["scheme"], "cfg": case["cfg"], "db": case["db"],
+                              "key_bytes": kb}, ctx.scratch)
+        acc.count("replayed")
+        if a and b and set(a) & set(b):
+            acc.violation(f"{gen.SHORT[case['scheme']]}:ciphertexts-repeat-across-twin-interpreters", "replayed", case)
+        return
     if case.get("db_class") == "forked":
         scheme, cfg, db = case["scheme"], case["cfg"], case["db"]
         sch = sse.loader(scheme).SSEScheme(cfg)
@@ -308,6 +359,8 @@ def finish(m, tier, seed):
             inc.append(f"{short}: only {per[short]['cases']} cases")
     if c.get("entries_compared_within", 0) < 10 ** 4:
         inc.append(f"only {c.get('entries_compared_within', 0)} ciphertext entries compared")
+    if c.get("twin_build_pairs", 0) < 8:
+        inc.append("fewer than 8 pairs of twin interpreters built an index")
     if c.get("forked_build_pairs", 0) < 8 or c.get("builds_after_reseeding_global_random", 0) < 200:
         inc.append("forked / re-seeded builds did not run")
     if "shared-id" not in m["sets"].get("classes", []):
